@@ -98,6 +98,20 @@ SUInv == \A v \in {0, 1} :
            /\ FastRanks(x, v) = [i \in 1..Len(x) |-> SU!Rank(x, v, i - 1)]
            /\ [j \in 1..SU!Count(x, v) |-> FastPos(x, v)[j] - 1] = [j \in 1..SU!Count(x, v) |-> SU!Select(x, v, j)]
 
+\* ---------------------------------------------------------------- rg (BitSequenceRG::rank1 transcribed)
+\* words of WB bits (the library: 32), a superblock every Factor words: Rs[j] = ones in the first j superblocks;
+\* rank1(i): i+1 bits are counted - the superblock counter, whole words since the superblock, then the low
+\* (i+1) % WB bits of the next word (a word past the last one is all zero, as the constructor allocates it)
+WB == 4
+Word(B, a) == [k \in 1..WB |-> IF a * WB + k <= Len(B) THEN B[a * WB + k] ELSE 0]
+Pop(wd, upto) == Cardinality({k \in 1..upto : wd[k] = 1})
+RsRG(B, f, j) == Cardinality({k \in 1..Len(B) : k <= j * f * WB /\ B[k] = 1})
+SumWords(B, lo, hi) == Cardinality({k \in 1..Len(B) : k > lo * WB /\ k <= hi * WB /\ B[k] = 1})
+Rank1RG(B, f, i) == LET ii == i + 1  sb == ii \div (f * WB) IN
+                    RsRG(B, f, sb) + SumWords(B, sb * f, ii \div WB) + Pop(Word(B, ii \div WB), ii % WB)
+RGInit == x \in UNION {[1..k -> {0, 1}] : k \in 1..10} /\ y \in {1, 2}
+RGInv == \A i \in 0..(Len(x) - 1) : Rank1RG(x, y, i) = SU!Rank(x, 1, i)
+
 \* ---------------------------------------------------------------- repair
 \* x = <<input, current sequence, rules>>, terminals = 3 (symbols 0..2, 0 = terminator)
 Inputs == {s \in UNION {[1..k -> 0..2] : k \in 2..6} : s[Len(s)] = 0 /\ s[1] # 0 /\ \A i \in 1..(Len(s) - 1) : ~(s[i] = 0 /\ s[i + 1] = 0)}
@@ -116,9 +130,9 @@ RPInv == /\ RP!ExpandSeq(x[3], 3, x[2]) = x[1]
          /\ RP!Compact(x[2]) = x[2]
 
 Init == CASE Which = "vbyte" -> VBInit [] Which = "logseq" -> LSInit [] Which = "codes" -> CDInit [] Which = "chunk" -> CKInit
-          [] Which = "succinct" -> SUInit [] Which = "repair" -> RPInit
+          [] Which = "succinct" -> SUInit [] Which = "rg" -> RGInit [] Which = "repair" -> RPInit
 Next == CASE Which = "logseq" -> LSNext [] Which = "repair" -> RPNext [] OTHER -> UNCHANGED vars
 Inv == CASE Which = "vbyte" -> VBInv [] Which = "logseq" -> LSInv [] Which = "codes" -> CDInv [] Which = "chunk" -> CKInv
-         [] Which = "succinct" -> SUInv [] Which = "repair" -> RPInv
+         [] Which = "succinct" -> SUInv [] Which = "rg" -> RGInv [] Which = "repair" -> RPInv
 Spec == Init /\ [][Next]_vars
 =============================================================================
